@@ -157,6 +157,17 @@ func printfIdxOf(p *Prog, known map[*ssa.Function]printfInfo, c *ssa.CallCommon)
 		the Args of a static method call. */
 		return pi.fmtIdx, fnName(f)
 	}
+	/* s.ErrorLogf as a value (handed to a helper since folded in): the
+	method, less its receiver. */
+	if strings.HasSuffix(f.Name(), "$bound") {
+		if mo, _ := f.Object().(*types.Func); nil != mo {
+			if m := p.SSA.FuncValue(mo); nil != m {
+				if pi, ok := known[m]; ok && pi.fmtIdx >= 1 {
+					return pi.fmtIdx - 1, fnName(m)
+				}
+			}
+		}
+	}
 	if inModule(f) {
 		return -1, ""
 	}
